@@ -112,3 +112,100 @@ Proof.
     rewrite forallb_forall in HL. specialize (HL _ Hin). cbn [fst snd] in HL. rewrite H1, H2 in HL. exact HL.
   - destruct (negb (forallb item_links_standard l)); discriminate.
 Qed.
+
+(** ** (3) C19_respects_equiv: the Spec does not see the order of object members, so agreement of
+    model and implementation modulo that order transfers every theorem about the oracle *)
+From Coq Require Import Permutation.
+
+Lemma forallb_perm {A} (f : A -> bool) l l' : Permutation l l' -> forallb f l = forallb f l'.
+Proof.
+  induction 1 as [|x l l' _ IH|x y l|l l' l'' _ IH1 _ IH2]; cbn [forallb]; try congruence.
+  destruct (f x), (f y); reflexivity.
+Qed.
+Lemma existsb_perm {A} (f : A -> bool) l l' : Permutation l l' -> existsb f l = existsb f l'.
+Proof.
+  induction 1 as [|x l l' _ IH|x y l|l l' l'' _ IH1 _ IH2]; cbn [existsb]; try congruence.
+  destruct (f x), (f y); reflexivity.
+Qed.
+Lemma forallb_ext_eq {A} (f g : A -> bool) l : (forall x, f x = g x) -> forallb f l = forallb g l.
+Proof. intro H. induction l as [|x l IH]; cbn [forallb]; [reflexivity|]. rewrite H, IH. reflexivity. Qed.
+
+Lemma links_equal_perm_l x x' y : Permutation x x' -> links_equal x y = links_equal x' y.
+Proof.
+  intro P. unfold links_equal. rewrite (forallb_perm _ _ _ P). f_equal.
+  apply forallb_ext_eq. intro kv. apply existsb_perm. assumption.
+Qed.
+
+Lemma forallb_Forall2 {A} (R : A -> A -> Prop) (f g : A -> bool) l l' :
+  Forall2 R l l' -> (forall a b, R a b -> f a = g b) -> forallb f l = forallb g l'.
+Proof.
+  intros H E. induction H as [|a b l l' Hab _ IH]; cbn [forallb]; [reflexivity|]. rewrite (E _ _ Hab), IH. reflexivity.
+Qed.
+
+Lemma item_links_standard_equiv a b : witem_equiv a b -> item_links_standard a = item_links_standard b.
+Proof.
+  intros (Ht & Hi & _ & l & P & F). unfold item_links_standard. rewrite (forallb_perm _ _ _ P).
+  eapply forallb_Forall2; [exact F|]. intros x y (Hn & Hl & _). rewrite Ht, Hi, Hn. apply links_equal_perm_l. assumption.
+Qed.
+
+Lemma item_is_equiv ty id a b : witem_equiv a b -> item_is ty id a = item_is ty id b.
+Proof. intros (Ht & Hi & _). unfold item_is. rewrite Ht, Hi. reflexivity. Qed.
+
+Lemma is_identifier_equiv a b : witem_equiv a b -> is_identifier a = is_identifier b.
+Proof.
+  intros (_ & _ & Pa & l & P & F). unfold is_identifier.
+  destruct (w_attrs a) as [|x xs].
+  - apply Permutation_nil in Pa. rewrite Pa.
+    destruct (w_rels a) as [|r rs].
+    + apply Permutation_nil in P. subst l. inversion F. reflexivity.
+    + destruct (w_rels b); [|reflexivity]. inversion F; subst. apply Permutation_sym, Permutation_nil in P. discriminate.
+  - destruct (w_attrs b); [|reflexivity]. apply Permutation_sym, Permutation_nil in Pa. discriminate.
+Qed.
+
+Lemma sub_identities_equiv ids : forall l l', Forall2 witem_equiv l l' -> sub_identities l ids = sub_identities l' ids.
+Proof.
+  induction ids as [|r ids IH]; intros l l' F.
+  - destruct F; reflexivity.
+  - destruct F as [|a b l l' Hab F]; [reflexivity|]. cbn [sub_identities].
+    rewrite (item_is_equiv _ _ _ _ Hab). destruct (item_is (r_type r) (r_id r) b).
+    + apply IH. assumption.
+    + apply IH. constructor; assumption.
+Qed.
+
+Lemma identity_and_links_equiv sch rq d d' top top' :
+  wdata_equiv d d' -> Permutation top top' -> identity_and_links sch rq d top = identity_and_links sch rq d' top'.
+Proof.
+  intros Hd Ht. unfold identity_and_links. cbv zeta.
+  destruct d as [| |a|l], d' as [| |b|l']; cbn [wdata_equiv] in Hd; try contradiction; cbn [forallb];
+    try rewrite (item_links_standard_equiv _ _ Hd); try rewrite (is_identifier_equiv _ _ Hd);
+    try rewrite (forallb_Forall2 _ _ _ _ _ Hd item_links_standard_equiv);
+    try rewrite (forallb_Forall2 _ _ _ _ _ Hd is_identifier_equiv);
+    destruct (endpoint_of sch (rq_path rq)) as [|t|t id|t id name|t id name];
+    try destruct (decode_body (dec_resource_request false) (rq_body rq));
+    try destruct (rt_create t);
+    try destruct (endpoint_linkage t id name) as [[|rr|ids]|];
+    try destruct (lookup_rel t name) as [dd|];
+    rewrite ?(links_equal_perm_l top top' _ Ht);
+    try rewrite (item_is_equiv _ _ _ _ Hd); try rewrite (sub_identities_equiv _ _ _ Hd);
+    reflexivity.
+Qed.
+
+Lemma data_present_equiv d d' : wdata_equiv d d' -> data_present d = data_present d'.
+Proof. destruct d, d'; cbn; intros []; reflexivity || reflexivity. Qed.
+
+Theorem oracle_respects_equiv pmt sch rq st ct b b' :
+  wbody_equiv b b' ->
+  oracle pmt sch rq (Some (st, ct, Some b)) = oracle pmt sch rq (Some (st, ct, Some b')).
+Proof.
+  intro H. destruct b as [v d e l|s], b' as [v' d' e' l'|s']; cbn [wbody_equiv] in H; try contradiction.
+  - destruct H as (-> & Hd & -> & Hl). unfold oracle, document_invariants.
+    rewrite (data_present_equiv _ _ Hd).
+    destruct (negb (bytes_eqb ct media_type)); [reflexivity|]. destruct v'; [|reflexivity].
+    destruct (data_present d' && negb match e' with [] => true | _ :: _ => false end); [reflexivity|].
+    destruct e'.
+    + destruct ((200 <=? st)%Z && (st <? 300)%Z); [|reflexivity].
+      destruct (ref_status pmt sch rq) as [rule allowed]. destruct (negb (existsb (Z.eqb st) allowed)); [reflexivity|].
+      apply identity_and_links_equiv; assumption.
+    + destruct (Z.eqb st (errors_status (b :: e'))); reflexivity.
+  - subst. reflexivity.
+Qed.
